@@ -613,6 +613,70 @@ def check_hermite_phys(case, rec):
     rec.nontrivial(deg >= 2)
 
 
+# ------------------------------------------------------------------------------------------
+# (added by the lead) the Hermite functions as the beam element uses them: the interpolation matrix Get_beam_N_e_pg of an
+# Euler-Bernoulli member in 2D / 3D maps nodal values AND nodal slopes (rz = v', ry = -w' in the member's own axes) to the
+# fields at the integration points.  Cubic v(s), w(s), linear u(s), rx(s) are reproduced exactly.
+
+
+@st.composite
+def beam_interp_cases(draw):
+    from vlib import gen_beam as gb
+
+    spec = draw(gb.member_specs(dims=(2, 3)))
+    spec["timoshenko"] = False
+    coefs = [[draw(st.integers(-3, 3)) / 2.0 for _ in range(4)] for _ in range(2)]  # v(s), w(s)
+    lin = [[draw(st.integers(-3, 3)) / 2.0 for _ in range(2)] for _ in range(2)]  # u(s), rx(s)
+    return dict(member=spec, coefs=coefs, lin=lin)
+
+
+def check_beam_interp(case, rec):
+    from vlib import gen_beam as gb
+    from vlib import gen_mesh as gm
+
+    spec = case["member"]
+    dim = spec["dim"]
+    simu, mesh, beam, frame = gb.build_member(spec)
+    g = gm.main_groups(mesh)[0]
+    name = str(g.elemType)
+    sig = dict(elemType=name, dim=dim)
+    rec.label("beam_interp:" + name, f"dim:{dim}", "graded" if spec.get("grade") else "uniform")
+    p1 = np.array(spec["p1"], float)
+    t = frame[0]
+    pv = np.polynomial.polynomial
+    cv, cw = (np.array(c, float) for c in case["coefs"])
+    cu, cr = (np.array(c, float) for c in case["lin"])
+    if dim == 2:
+        cw, cr = 0 * cw, 0 * cr
+    X = np.asarray(mesh.coord, float)
+    s_n = (X - p1) @ t
+    val = lambda c, s, m=0: pv.polyval(s, pv.polyder(c, m) if m else c)  # noqa: E731
+    u_loc = np.column_stack([val(cu, s_n), val(cv, s_n), val(cw, s_n)])
+    r_loc = np.column_stack([val(cr, s_n), -val(cw, s_n, 1), val(cv, s_n, 1)])  # rx, ry = -w', rz = v'
+    U = gb.local_to_global_dofs(frame, dim, u_loc, r_loc)  # (Nn, dof_n) global dofs
+    dof_n = U.shape[1]
+    conn = np.asarray(g.connect, int)
+    dofs_e = U[conn].reshape(conn.shape[0], -1)
+    N = np.asarray(g.Get_beam_N_e_pg(simu.structure), float)
+    nrow = 3 if dim == 2 else 6
+    rec.require(N.shape[2:] == (nrow, dof_n * conn.shape[1]), "beam_interp_shape", f"{name} {dim}D: N has shape {N.shape}", **sig)
+    got = np.einsum("epij,ej->epi", N, dofs_e)
+    xg = np.asarray(g.Get_GaussCoordinates_e_pg(MatrixType.beam), float)
+    s_g = (xg - p1) @ t
+    if dim == 2:
+        exact = np.stack([val(cu, s_g), val(cv, s_g), val(cv, s_g, 1)], axis=-1)
+        rows = ["u", "v", "rz=v'"]
+    else:
+        exact = np.stack([val(cu, s_g), val(cv, s_g), val(cw, s_g), val(cr, s_g), -val(cw, s_g, 1), val(cv, s_g, 1)], axis=-1)
+        rows = ["u", "v", "w", "rx", "ry=-w'", "rz=v'"]
+    scale = max(1.0, float(np.einsum("epij,ej->epi", np.abs(N), np.abs(dofs_e)).max()))
+    for i, rname in enumerate(rows):
+        rec.close(got[..., i] - exact[..., i], scale, 1e-10, "beam_interpolation",
+                  f"{name} {dim}D member d={spec['d']} yAxis={spec.get('yAxis')}: row '{rname}' of Get_beam_N_e_pg applied to the nodal values and "
+                  f"slopes of cubic v, w (rz = v', ry = -w') and linear u, rx does not reproduce the field at the integration points", row=rname, **sig)
+    rec.nontrivial(bool(np.abs(cv[2:]).max() > 0 or np.abs(cw[2:]).max() > 0))
+
+
 SUBS = [
     Sub("tables", check_tables, enum=enum_tables, doc="derivative tables vs formal derivatives in an exact ring"),
     Sub("span", check_span, enum=enum_span, doc="partition of unity / reproduction as polynomial identities"),
@@ -620,6 +684,7 @@ SUBS = [
     Sub("gauss", check_gauss, enum=enum_gauss, doc="Get_*N_pg == tabulated polynomials at the rule points"),
     Sub("points", check_points, gen=point_cases, quick=1000, thorough=6000, shards=8),
     Sub("hermite_phys", check_hermite_phys, gen=hermite_cases, quick=200, thorough=3000, shards=4),
+    Sub("beam_interpolation", check_beam_interp, gen=beam_interp_cases, quick=120, thorough=1500, shards=4),
 ]
 
 LEVEL_TEXT = ("every derivative table, the partition of unity, the polynomial reproduction and the Kronecker/Hermite nodal "
